@@ -88,7 +88,9 @@ def run(ctx):
     # EXPLORATION stream c04x (impl vs impl, NOT covered by the theorems' model): nested / struct-valued
     # disjuncts (harness/core/disjx.go) compared with order / duplicate / failed-disjunct rearrangements
     explo = run_c04x(ctx, harness, quick, known)
+    nest = run_nest(ctx, harness, exe, quick, known) if not (ctx.replay and _replay_kind(ctx) == C04X_KIND) else {"skipped": "replay of another stream"}
     ctx.coverage.update({
+        "nested_model_stream": nest,
         "exploration_c04x": explo,
         "obligations": proof["obligations"], "discharged": proof["discharged"],
         "checker_cmd": proof["checker_cmd"] + ("; coqchk -silent -o Verif.Properties.C04" if not quick else ""),
@@ -104,6 +106,86 @@ def run(ctx):
 
 
 C04X_KIND = "rearrangement-of-disjuncts-changes-outcome (exploration)"
+NEST_KIND = "nested-disjunction-result-differs-from-model"
+
+
+def _nest_rows(x):
+    """(kind, rows presence + field acceptance, node acceptance) of a nest result line"""
+    f = x.split(" ")
+    rows = None
+    if f[0] == "CHOSEN" and f[1].startswith("{"):
+        rows = [r if r == "-" else "=" + r.rsplit("/", 1)[1] for r in f[1][1:-1].split(",")]
+    return f[0], rows, f[2]
+
+
+def nest_plausible(a, m0):
+    """fold-sensitive class (F2) at the node or in a field: the error status, the node's acceptance, the fields present
+    and every field's acceptance must still agree; which default is reported may differ."""
+    ka, ra, acca = _nest_rows(a)
+    km, rm, accm = _nest_rows(m0)
+    if acca != accm or (ka == "NOVALUE") != (km == "NOVALUE"):
+        return False
+    if ra is not None and rm is not None:
+        return ra == rm
+    return True
+
+
+def run_nest(ctx, harness, exe, quick, known):
+    """Model stream for Core/Nest.v: disjunctions as field values, struct-level disjunctions of such structs, struct probes
+    unified in the language.  Exact agreement of resolution, chosen struct (per field: presence, resolution, chosen value,
+    acceptance of 11 probe atoms), number of values of an unresolved node and node acceptance, outside the model-computed
+    classes SENS (F2) and TWINS (F18(b))."""
+    import json
+    n = 1500 if quick else 60000
+    cases, impl, model, src, meta = _core.run_mode(ctx, harness, exe, "nest", n)
+    feats = {}
+    try:
+        feats = json.load(open(os.path.join(ctx.work, "nest", "features.json")))
+    except Exception:
+        pass
+    outcomes, kinds = {}, {}
+    sens = twins = agree = f2 = f18 = viol = 0
+    struct_chosen = field_ambig = 0
+    distinct = set()
+    for i, (c, a, m, name) in enumerate(zip(cases, impl, model, meta)):
+        distinct.add(c)
+        kinds[name.split(":")[0]] = kinds.get(name.split(":")[0], 0) + 1
+        outcomes[a.split(" ")[0]] = outcomes.get(a.split(" ")[0], 0) + 1
+        struct_chosen += a.startswith("CHOSEN {")
+        field_ambig += "=A/" in a
+        s = m.endswith(" SENS")
+        m0 = m[:-5] if s else m
+        t = m0.endswith(" TWINS")
+        m0 = m0[:-6] if t else m0
+        sens += s
+        twins += t
+        if a == m0:
+            agree += 1
+            continue
+        if t and "F18" in known:
+            f18 += 1
+            continue
+        if s and "F2" in known and nest_plausible(a, m0):
+            f2 += 1
+            continue
+        viol += 1
+        if viol <= 5:
+            ctx.violation({"kind": NEST_KIND, "program": src[i], "case": c, "impl": a, "spec_model": m,
+                           "note": "x: fields with disjunction values / disjunctions of such structs; model = coq/theories/Core/Nest.v; "
+                                   "not in the classes SENS (F2) / TWINS (F18b) computed by the model, or implausible inside them"})
+    if f18:
+        ctx.known_finding("F18: generated struct disjuncts that differ only in the default marks of a field disjunction after unification "
+                          "(model flag TWINS, Core/Nest.v nest_twins) are merged by cue, the first one's marks win")
+    if f2:
+        ctx.known_finding("F2: generated nested expressions in the fold-sensitive class (node or field) report a different default than the order-free spec answer")
+    return {
+        "label": "MODEL stream (extracted Core/Nest.v vs cue): disjunctions as field values and disjunctions of such structs",
+        "evaluations": len(cases), "distinct_cases": len(distinct), "agree_exactly": agree,
+        "case_kinds": kinds, "outcomes": outcomes, "chosen_structs": struct_chosen, "results_with_ambiguous_field": field_ambig,
+        "features": feats, "fold_sensitive_cases(SENS)": sens, "twin_cases(TWINS)": twins,
+        "mismatches_in_known_class_F2": f2, "mismatches_in_known_class_F18": f18, "violations_found": viol,
+        "samples": [{"program": src[i], "impl": impl[i], "model": model[i]} for i in (0, min(40, len(src) - 1))] if src else [],
+    }
 
 # Witness pairs of finding F18 (design/Core.md, proposed in design/C04x.findings.json): the same disjuncts, reordered.
 # Evaluated on every run before the generated expressions.  A KNOWN-FINDING line is printed only while a pair
@@ -211,7 +293,7 @@ def run_c04x(ctx, harness, quick, known):
 
 MANIFEST = {
     "category": "proof",
-    "text": "Coq theorems about the order-free value/default semantics of Core/Disj.v (survivors of the cross product, effectively marked disjunctions, defaults, resolution): acceptance is the union over disjuncts distributed over &; a resolution is the unique default or else the unique value and always the value of a surviving choice (never silently chosen); failed disjuncts (marked or not) and duplicates do not change values, default flags or resolution; a choice's value does not depend on operand order; the spec's table rows and the order-free answer for the F2 witness are checked Examples. Tied to cue by exact agreement of resolution, chosen value and atom acceptance on generated expressions outside the model-computed fold-sensitive class; inside that class (known finding F2: cue's left fold is order dependent) the implementation's answer must still be ambiguity or one of the surviving values with identical acceptance.",
-    "note": "cue's crossProduct fold is not modelled (no Impl layer): F2 instances are recognised by the predicate fold_sensitive (late elimination of all marked disjuncts of a disjunction, or conflicting defaults) computed by the model. Disjunct structs use regular fields only (known finding F9 concerns optional fields). Permutation invariance of the whole value/default pair under reordering of the disjunctions is checked by the harness, not yet a theorem (tuple-level order-freeness is). An additional EXPLORATION stream (mode c04x, harness/core/disjx.go; impl vs impl, no model) compares expressions with parenthesised nested disjunctions (unmarked outer, marked inner; also reached through a reference), struct/list disjuncts whose fields/elements are disjunctions, and an optional plain operand with 6 rearrangements each that the theorems C04_disjunct_order_independent / C04_duplicate_disjunct / C04_weaker_copy_irrelevant / C04_failed_disjunct_irrelevant say preserve the outcome (never operand order of &, never re-association of marked groups), observing the resolution after iterating Default(), Validate(Concrete), the sorted set of disjuncts of the evaluated value and in-language acceptance of probe atoms/structs/lists. It sets aside the class of finding F18 (struct/list disjuncts equal up to the order or the default marks of a nested disjunction are merged depending on disjunct order); the witness pairs of F18 and of F19 (disjuncts dropped when a second disjunction operand follows; outside the generated fragment) are evaluated on every run and reported as KNOWN-FINDING only while they disagree and the id is listed.",
+    "text": "Coq theorems about the order-free value/default semantics of Core/Disj.v (survivors of the cross product, effectively marked disjunctions, defaults, resolution): acceptance is the union over disjuncts distributed over &; a resolution is the unique default or else the unique value and always the value of a surviving choice (never silently chosen); failed disjuncts (marked or not) and duplicates do not change values, default flags or resolution; a choice's value does not depend on operand order; the spec's table rows and the order-free answer for the F2 witness are checked Examples. Tied to cue by exact agreement of resolution, chosen value and atom acceptance on generated expressions outside the model-computed fold-sensitive class; inside that class (known finding F2: cue's left fold is order dependent) the implementation's answer must still be ambiguity or one of the surviving values with identical acceptance. Disjunctions BELOW the top level are modelled too (Core/Nest.v over the generic Core/DisjGen.v): structs whose fields hold disjunctions and disjunctions of such structs; proved: value/default pairs propagate through fields (a surviving struct reports at every field exactly the outcome of everything unified into it), a failed field fails the struct and such a disjunct changes nothing, never-silent resolution, acceptance as union, independence of operand order / disjunct order / duplicates / weaker copies one level up; tied by a second model stream (mode nest) comparing resolution, per-field presence / resolution / chosen value / acceptance and in-language struct probes exactly.",
+    "note": "Nested model stream: field disjuncts are scalars, structs are open literals with regular fields, one nesting level (node -> fields); the model-computed classes SENS (F2 where two disjunctions meet, at the node or a field) and TWINS (F18(b)) are compared loosely / set aside, and the generator stays out of F18(a)/F19 by construction (design/Core.md, NestCUE). cue's crossProduct fold is not modelled (no Impl layer): F2 instances are recognised by the predicate fold_sensitive (late elimination of all marked disjuncts of a disjunction, or conflicting defaults) computed by the model. Disjunct structs use regular fields only (known finding F9 concerns optional fields). Permutation invariance of the outcome under reordering of the disjunctions is a theorem (C04_operand_order_independent, C04_nest_operand_order_independent). An additional EXPLORATION stream (mode c04x, harness/core/disjx.go; impl vs impl, no model) compares expressions with parenthesised nested disjunctions (unmarked outer, marked inner; also reached through a reference), struct/list disjuncts whose fields/elements are disjunctions, and an optional plain operand with 6 rearrangements each that the theorems C04_disjunct_order_independent / C04_duplicate_disjunct / C04_weaker_copy_irrelevant / C04_failed_disjunct_irrelevant say preserve the outcome (never operand order of &, never re-association of marked groups), observing the resolution after iterating Default(), Validate(Concrete), the sorted set of disjuncts of the evaluated value and in-language acceptance of probe atoms/structs/lists. It sets aside the class of finding F18 (struct/list disjuncts equal up to the order or the default marks of a nested disjunction are merged depending on disjunct order); the witness pairs of F18 and of F19 (disjuncts dropped when a second disjunction operand follows; outside the generated fragment) are evaluated on every run and reported as KNOWN-FINDING only while they disagree and the id is listed.",
     "technique": "Coq proof about an order-free spec model of defaults + extracted-model differential check with model-side classification of the known order-dependence",
 }
